@@ -309,7 +309,7 @@ where
             let full: Vec<usize> = decisions.iter().map(|d| d["enabled"].as_array().unwrap().iter().position(|t| t.as_u64() == d["chosen"].as_u64()).unwrap_or(0)).collect();
             let again = run_one(cfg, |em| exec(&full, em));
             if again.fingerprint() != res.fingerprint() {
-                let v = rep.violations.pop().expect("violation");
+                let v = rep.retract_last();
                 rep.machinery_errors.push(format!("ppx: re-running the schedule of violation {} gave different observations:\n{}\nvs\n{}", v.signature, res.fingerprint(), again.fingerprint()));
             }
         }
